@@ -18,7 +18,8 @@
 (*   whenever the definition is not already being resolved).                 *)
 EXTENDS Common, Json
 
-CONSTANTS Keys, Plain, DefShapes, UseIdx
+CONSTANTS Keys, Plain, DefShapes, UseIdx,
+          Reverses       \* subset of BOOLEAN: which settings of output.reverseAttributes are generated
 
 NONE == "<none>"
 Nm == Keys \cup Plain
@@ -46,10 +47,10 @@ Uses == << <<Leaf("k1")>>,
            <<Item("k1", <<<<"q", "2">>, <<"q", "4">>>>, NONE, FALSE, 2, <<Leaf("y")>>)>>,         \* repeated attribute, repeater, child
            <<Item("k2", <<Cls("c"), Cls("d"), Cls("c")>>, "t", FALSE, 1, <<>>)>> >>
 
-VARIABLES table, use
-vars == <<table, use>>
-Init == table \in [Keys -> Defs] /\ use = 0
-Next == use = 0 /\ use' \in UseIdx /\ UNCHANGED table
+VARIABLES table, use, reverse          \* reverse: output.reverseAttributes
+vars == <<table, use, reverse>>
+Init == table \in [Keys -> Defs] /\ use = 0 /\ reverse \in Reverses
+Next == use = 0 /\ use' \in UseIdx /\ UNCHANGED <<table, reverse>>
 Spec == Init /\ [][Next]_vars
 
 (* -------------------------------------------------------------- rendering *)
@@ -64,15 +65,20 @@ Render(items) == IF items = <<>> THEN "" ELSE RenderItem(items[1]) \o (IF Len(it
 
 (* ---------------------------------------------------------------- machine *)
 InStack(st, df) == \E i \in 1..Len(st) : st[i] = df
-\* merge_attributes(): a repeated class is joined with a blank, any other repeated name keeps its first position and takes the last value
+\* merge_attributes(): a repeated class is joined with a blank, any other repeated name keeps its first position and takes the last
+\* value (the first one under output.reverseAttributes)
 AddMention(attrs, m) == IF \E i \in 1..Len(attrs) : attrs[i][1] = m[1]
                         THEN [i \in 1..Len(attrs) |-> IF attrs[i][1] # m[1] THEN attrs[i]
-                                                      ELSE IF m[1] = "class" THEN <<m[1], attrs[i][2] \o " " \o m[2]>> ELSE m]
+                                                      ELSE IF m[1] = "class" THEN <<m[1], attrs[i][2] \o " " \o m[2]>>
+                                                      ELSE IF reverse THEN attrs[i] ELSE m]
                         ELSE Append(attrs, m)
 RECURSIVE AddAttr(_, _)
 AddAttr(attrs, ms) == IF ms = <<>> THEN attrs ELSE AddAttr(AddMention(attrs, Head(ms)), Tail(ms))
-Entry(d, it) == [d |-> d, n |-> it.n, attrs |-> AddAttr(<<>>, it.attr), text |-> it.text, sc |-> it.sc]
-Merge(e, it) == [e EXCEPT !.attrs = AddAttr(@, it.attr), !.text = IF it.text # NONE THEN it.text ELSE @, !.sc = @ \/ it.sc]
+\* an entry keeps the raw mention list (resolve() concatenates lists; merge_attributes() runs once, afterwards)
+Entry(d, it) == [d |-> d, n |-> it.n, attrs |-> it.attr, text |-> it.text, sc |-> it.sc]
+Final(l) == [j \in 1..Len(l) |-> [l[j] EXCEPT !.attrs = AddAttr(<<>>, @)]]
+\* resolve(): own attributes then the alias' attributes - the other way round under output.reverseAttributes
+Merge(e, it) == [e EXCEPT !.attrs = IF it.attr = <<>> THEN @ ELSE IF reverse THEN it.attr \o @ ELSE @ \o it.attr, !.text = IF it.text # NONE THEN it.text ELSE @, !.sc = @ \/ it.sc]
 RECURSIVE ExpItems(_, _, _), ExpItem(_, _, _)
 \* result [l: listing, md: deepest stack seen]
 ExpOnce(it, st, d) ==
@@ -89,7 +95,8 @@ ExpItems(items, st, d) ==
     IF items = <<>> THEN [l |-> <<>>, md |-> Len(st)]
     ELSE LET a == ExpItem(items[1], st, d) b == ExpItems(Tail(items), st, d) IN [l |-> a.l \o b.l, md |-> Max(a.md, b.md)]
 
-Result == ExpItems(Uses[use], <<>>, 0)
+Raw == ExpItems(Uses[use], <<>>, 0)
+Result == [l |-> Final(Raw.l), md |-> Raw.md]
 DistinctDefs == Cardinality({Render(table[k]) : k \in Keys})
 DepthBound == use # 0 => Result.md <= DistinctDefs
 
@@ -98,14 +105,14 @@ DepthBound == use # 0 => Result.md <= DistinctDefs
    the guard of the machine is what makes the two sides differ when the definition refers to itself. *)
 InPlace(it) == LET df == table[it.n] IN
                IF Len(df) = 1 /\ df[1].kids = <<>>
-               THEN <<[df[1] EXCEPT !.attr = @ \o it.attr, !.text = IF it.text # NONE THEN it.text ELSE @,
+               THEN <<[df[1] EXCEPT !.attr = IF reverse THEN it.attr \o @ ELSE @ \o it.attr, !.text = IF it.text # NONE THEN it.text ELSE @,
                                     !.sc = @ \/ it.sc, !.rep = it.rep, !.kids = it.kids]>>
                ELSE <<>>
 AliasIsDefinition ==
     (use # 0 /\ Len(Uses[use]) = 1) =>
         LET it == Uses[use][1] IN
         (it.n \in Keys /\ InPlace(it) # <<>> /\ table[it.n][1].n \notin Keys) =>
-            ExpItems(InPlace(it), <<>>, 0).l = Result.l
+            Final(ExpItems(InPlace(it), <<>>, 0).l) = Result.l
 
-Dump == use # 0 => PrintT(<<"VEC", ToJson([t |-> [k \in Keys |-> Render(table[k])], abbr |-> Render(Uses[use]), out |-> Result.l, md |-> Result.md])>>)
+Dump == use # 0 => PrintT(<<"VEC", ToJson([t |-> [k \in Keys |-> Render(table[k])], abbr |-> Render(Uses[use]), reverse |-> reverse, out |-> Result.l, md |-> Result.md])>>)
 =============================================================================
